@@ -249,6 +249,7 @@ def consume_variants(mon, ctx, rng, token, jwks, pubset, target, a, case):
     others = [i for i in range(len(jwks)) if i != target]
     wrong = rng.choice(others)
     variants = [("unknown-kid", "ghost"), ("empty-kid", ""), ("kid-of-other-key", kid_of(jwks[wrong])), ("no-kid", None)]
+    variants += near_kids(jwks, target)
     for name, kid in variants:
         t2 = relabel(token, kid, jwks[target], a)
         if t2 is None:
@@ -261,8 +262,26 @@ def consume_variants(mon, ctx, rng, token, jwks, pubset, target, a, case):
         c2 = {**case, "token": t2, "variant": name}
         if v.ok:
             ctx.violation(f"consume-accepts:{name}", f"token re-signed by key #{target} but labelled {name} ({kid!r}) was accepted against a set of {len(jwks)} keys", c2)
-        elif name in ("unknown-kid", "empty-kid", "no-kid") and v.etype != "InvalidKeyIdError":
+        elif (name in ("unknown-kid", "empty-kid", "no-kid") or name.startswith("unknown-kid:")) and v.etype != "InvalidKeyIdError":
             ctx.violation(f"{name}-wrong-error:{v.key}", f"{name} reported as {v.exc!r}, not InvalidKeyIdError", c2)
+
+
+def near_kids(jwks, target):
+    """names that are not the kid of any key of the set although they point at the right key in some other way: its RFC 7638 thumbprint when it is listed
+    under an explicit kid, its kid in another case or with white space, its position"""
+    own = kid_of(jwks[target])
+    all_kids = {kid_of(x) for x in jwks}
+    out = []
+    try:
+        tp = RefKey.from_jwk(jwks[target]).thumbprint()
+    except Exception:
+        tp = None
+    for name, cand in (("thumbprint-of-the-key-listed-under-another-kid", tp), ("other-case", own.swapcase() if isinstance(own, str) else None),
+                       ("trailing-space", own + " " if isinstance(own, str) else None), ("leading-space", " " + own if isinstance(own, str) else None),
+                       ("prefix", own[:-1] if isinstance(own, str) and len(own) > 1 else None), ("position", str(target)), ("thumbprint-sha512", None)):
+        if cand is not None and cand not in all_kids:
+            out.append(("unknown-kid:" + name, cand))
+    return out
 
 
 def relabel(token, kid, jw, a):
@@ -411,7 +430,7 @@ def jwe_case(mon: Mon, rng):
     if len(jwks) >= 2 and isinstance(token, str) and not sk0:
         base = g.make("compact", enc, [(alg, {k: v for k, v in jwks[chosen[0]].items() if k != "kid"}, None)], pt)
         hh = json.loads(b64u_dec_lenient(base.token.split(".")[0]))
-        for name, kid in (("unknown-kid", "ghost"), ("kid-of-other-key", kid_of(jwks[(chosen[0] + 1) % len(jwks)])), ("no-kid", None)):
+        for name, kid in [("unknown-kid", "ghost"), ("kid-of-other-key", kid_of(jwks[(chosen[0] + 1) % len(jwks)])), ("no-kid", None)] + near_kids(jwks, chosen[0]):
             b2 = g.make("compact", enc, [(alg, {**{k: v for k, v in jwks[chosen[0]].items() if k != "kid"}, **({"kid": kid} if kid is not None else {})}, None)], pt)
             d = call(j.jwe.decrypt_compact, b2.token, privset, algorithms=allow)
             ctx.ev()
